@@ -11,7 +11,13 @@ git -C /repo worktree add -q --detach "$W" HEAD || exit 2
 cp -r "$SRC/demo" /tmp/seedeval/demo-$ID-$V
 D=/tmp/seedeval/demo-$ID-$V
 sed -i "s|/tmp/seed/$ID/v2|$W/v2|g" $D/go.mod 2>/dev/null
-rundemo() { if ls $D/*_test.go >/dev/null 2>&1; then (cd $D && go test -count=1 ./... >/tmp/seedeval/demo.out 2>&1); else (cd $D && go run . >/tmp/seedeval/demo.out 2>&1); fi; echo $?; }
+RACE=""; [ -d $D/bin ] && { export PATH=$D/bin:$PATH; chmod +x $D/bin/* 2>/dev/null; RACE="-race"; }
+rundemo() {
+  if [ ! -f $D/go.mod ]; then
+    # test file meant to live inside a package of the module (C19): copy it next to the decoder package
+    cp $D/*_test.go $W/v2/drivers/midicat/ && (cd $W/v2 && go test -count=1 ./drivers/midicat/ >/tmp/seedeval/demo.out 2>&1); rc=$?; rm -f $W/v2/drivers/midicat/c19*_demo_test.go; echo $rc; return
+  fi
+  if ls $D/*_test.go >/dev/null 2>&1; then (cd $D && go test $RACE -count=1 ./... >/tmp/seedeval/demo.out 2>&1); else (cd $D && go run . >/tmp/seedeval/demo.out 2>&1); fi; echo $?; }
 clean_rc=$(rundemo)
 git -C "$W" apply "$SRC/patch.diff" || { echo "{\"id\":\"$ID-$V\",\"error\":\"patch does not apply\"}"; git -C /repo worktree remove --force "$W"; exit 3; }
 build=$(cd $W/v2 && go build $(go list ./... | grep -v -e rtmididrv -e portmididrv) 2>&1 | head -3)
